@@ -175,6 +175,9 @@ def text_class(v, delim):
         c.append('inner-space')
     if any(ch.isdigit() for ch in s):
         c.append('digit-looking')
+    _SP = ('None', 'NULL', 'nan', 'NaN', 'NAN', 'inf', '-inf', 'True', 'False', '#N/A')
+    if s not in _SP and any(s.startswith(p_) or s.endswith(p_) for p_ in _SP):
+        c.append('resembles-missing-spelling')
     if any(ch in s for ch in ',;|\t') and delim not in s:
         c.append('other-delimiter')
     return '+'.join(c) if c else 'plain'
@@ -475,11 +478,13 @@ def str_alphabet(d, tier):
 
 def str_specials(d):
     return ['', ' ', 'a b', ' a', 'a ', '  a  b ', d, 'a' + d + 'b', d + d, QUOTE, 'x"y', '"q"', '""', d + QUOTE, QUOTE + d + QUOTE,
-            'a "b' + d + ' c"', '1a', 'v2', '1-2', '1 2', _other(d), 'a' + _other(d), "it's", '#x', 'a#', 'é', 'A_b.c']
+            'a "b' + d + ' c"', '1a', 'v2', '1-2', '1 2', _other(d), 'a' + _other(d), "it's", '#x', 'a#', 'é', 'A_b.c',
+            # ordinary words that merely BEGIN (or end) like a spelling of a missing value / infinity / Boolean
+            'Nonexistent', 'NULLABLE', 'information', '-infinity', 'nanometer', 'NaNs', 'Trueish', 'xNone']
 
 
 def label_specials(d):
-    return ['a b', ' a', 'a ', 'a' + d + 'b', d, 'x"y', QUOTE, '1a', 'v2', _other(d), '#x', "it's", '__index0__', 'é']
+    return ['a b', ' a', 'a ', 'a' + d + 'b', d, 'x"y', QUOTE, '1a', 'v2', _other(d), '#x', "it's", '__index0__', 'é', 'Nonexistent', 'information']
 
 
 POOLS = {
